@@ -37,3 +37,18 @@ package client
 //@   before call sendCh assert negative-is-retried: !(file.Waiting() || file.Received()) && arg1 == broker.chRetry
 //@   before call sts.FileSource.Remove assert remove-needs-positive-and-policy: (file.Waiting() || file.Received()) && called((*Broker).canDelete) && lastret((*Broker).canDelete, 0) && lastarg((*Broker).canDelete, 1) == arg1
 //@   on return assert one-of-both: called(sts.FileCache.Done) != called(sendCh)
+
+// the Iterate callbacks of scan are verified in the context of scan
+//@ func (*Broker).hash trusted
+//@   modifies nothing
+//@ func (*Broker).scan
+//@   before call sts.FileSource.Remove assert remove-needs-done-and-policy: called(sts.Cached.IsDone) && lastret(sts.Cached.IsDone, 0) && lastarg(sts.Cached.IsDone, 0) == cached && called((*Broker).canDelete) && lastret((*Broker).canDelete, 0) && lastarg((*Broker).canDelete, 1) == cached && arg1 == cached
+//@   forbid call sts.FileCache.Done label scan-never-marks-done
+
+//@ func (*Broker).includeScannedFile
+//@   on return assert definition: result == (file.GetSize() != 0 && (cached == nil || cached.GetSize() != file.GetSize() || cached.GetTime() != file.GetTime()))
+//@   on return assert looks-up-this-file: called(sts.FileCache.Get) ==> lastarg(sts.FileCache.Get, 1) == file.GetName() && cached == lastret(sts.FileCache.Get, 0)
+
+//@ func (*Broker).startValidate
+//@   before call (*Broker).finish assert finish-only-with-verdict: arg1.NotFound() ==> has(poll, arg1.GetName()) && poll[arg1.GetName()].polled == broker.Conf.PollAttempts
+//@   before call (*Broker).finish assert finish-answers-of-this-poll: called(Validator) && lastret(Validator, 1) == nil
